@@ -319,7 +319,23 @@ pub fn apply_op(op: &Op, top: bool) {
             let Some(i) = pick(*sel, n) else { return noop() };
             let h = wd.roots.borrow_mut().remove(i);
             wd.model.borrow_mut().roots.remove(i);
-            drop(h);
+            if top && *sel & 3 == 3 && (wd.layout_lo.get() >> 24) & 1 == 1 && !exec::inproc() && !std::thread::panicking() {
+                // the handle is a local of a frame that unwinds: it is dropped while
+                // the thread is panicking (`std::thread::panicking()` is true)
+                label(lab::DROP_WHILE_UNWINDING);
+                struct Unwind;
+                let r = catch_unwind(AssertUnwindSafe(move || {
+                    let _held = h;
+                    std::panic::panic_any(Unwind);
+                }));
+                if let Err(e) = r {
+                    if !e.is::<Unwind>() {
+                        std::panic::resume_unwind(e);
+                    }
+                }
+            } else {
+                drop(h);
+            }
         }
         Op::DropClosureRoots(sel) => {
             let hs = wd.model.borrow().handles();
